@@ -74,13 +74,101 @@ def parseTrips : List Pos → Tok → Option (List (Trip × String))
     pure ((⟨(p.lon, p.lat), (qx, qy), e1 == "ok", (px, py), e2 == "ok", (rx, ry), e3 == "ok"⟩, errs) :: r)
   | _, _ => none
 
-/-- tolerance of the correspondence on projected coordinates: 1e-9 relative (floor: 1 km) -/
-def closeM (impl model : Float) : Bool :=
+/-- base tolerance of the correspondence on projected coordinates: 1e-9 relative (floor: 1 km) -/
+def closeM0 (impl model : Float) : Bool :=
   (impl - model).abs ≤ 1.0e-9 * (max model.abs 1000.0)
-/-- tolerance of the correspondence on angles in degrees: 3e-12 rad (1e-12 rad is reached where a
-solver's stopping test is straddled by Go math vs libm: aeaPhi1z stops at |dphi| <= 1e-7 and the
-quadratic remainder at 89 degrees is ~1e-12 rad) -/
-def closeDeg (impl model : Float) : Bool := (impl - model).abs ≤ 1.72e-10
+
+/-- What the correspondence may differ by BEYOND the base tolerance (3e-12 rad / 1e-9 relative), derived
+from the code, never a fitted number.  Two sources, both only for the conic projections:
+
+(1) CONDITIONING OF THE CONE CONSTANT.  `AEA`/`LCC`/`EqdC` compute the cone constant as a quotient of two
+differences, `ns0 = (ms1² − ms2²)/(qs2 − qs1)` (aea), `log(ms1/ms2)/log(ts1/ts2)` (lcc), `(ms1 − ms2)/(ml2 − ml1)`
+(eqdc).  Go's `math.Sin/Cos/Log/Pow` and libm's (the Float model) may differ by an ulp; with parallels that are close
+but not equal the differences cancel and the relative difference of the two `ns` is `u·κ`,
+`κ = (|p|+|q|)/|p − q|` summed over numerator and denominator, `u = 2^-53` (replayed case C08-aea_ell_hopnone-bc06f22e:
+lat_1 = 29.868, lat_2 = 30.087, κ = 756, ms1 and ms2 one ulp apart in opposite directions, `ns0` 908 ulps apart).
+Each operand may differ by up to 2 ulps after squaring, so `δ := |Δns/ns| ≤ 4uκ`.  Downstream, `theta/ns`, `rh`, `c`
+inherit `δ` with a factor ≤ (1 + 1/|ns|): `cone = 4 u κ (1 + 1/|ns|)` radians (×a: metres); longitude and metres are
+allowed 4·cone, the lcc/eqdc latitude 8·cone (|log ts| ≤ 5 at 89°).  For aea, `qs = ms1²/ns0 + qs1 − (rh1/a)² ns0` with
+`rh1` measured from the apex at distance `rh`: `|Δqs| ≤ δ (2ms1² + |ns0|(|qs1|+|qs|) + 4ρ²)/|ns0|`, `ρ² = c − ns0·qs ≤ 1 + 4|ns0|`,
+`ms1² ≤ 1`, `|qs| ≤ 2`: `≤ 26 δ (1 + 1/|ns0|)`, and the latitude is `q⁻¹(qs)` with `q' = 2(1−e²)cos φ/(1−e²sin²φ)² ≥ 1.9 cos φ`:
+`|Δφ| ≤ 14·cone/cos φ` (largest seen in 7 200 lines of the close-parallels stratum, 12 thorough seeds: 1.3·cone/cos φ, on the
+hemisphere opposite to the parallels where ρ² is largest).
+(2) STOP-TEST STRADDLE of `aeaPhi1z` (`|dphi| <= 1e-7`, exact Newton on the authalic q): if rounding puts the two
+sides on different sides of the test they differ by one more Newton step, `≤ M dphi²` with
+`M = |q''/(2q')| ≤ tan|φ|/2 + 2e²/(1−e²)` (`q''/q' = −tan φ + 4e² sin φ cos φ/(1−e² sin²φ)`), i.e.
+`≤ 1.5·(tan|φ|/2 + 2e²/(1−e²))·1e-14` rad (1.5: `M` is taken at the result, not along the step): 4.3e-13 at 89°.
+In well-conditioned cases (κ ≤ 100) both stay below the base tolerance, which then applies unchanged. -/
+structure Slack where
+  /-- `4 u κ (1 + 1/|ns|)`; 0 when the destination is not a conic -/
+  cone : Float
+  /-- aea: latitude slack is `cone/cos φ` plus the Newton straddle term -/
+  aea : Bool
+  /-- `2e²/(1−e²)` of the aea's own eccentricity (0 on a sphere: no iteration) -/
+  e2term : Float
+  a : Float
+
+def noSlack : Slack := ⟨0.0, false, 0.0, 0.0⟩
+
+def coneSlack (b : SR Float) : Slack :=
+  let u : Float := 1.1102230246251565e-16
+  let rc (p q : Float) : Float := (p.abs + q.abs) / (p - q).abs
+  let mk (κ ns : Float) (aea : Bool) (e : Float) : Slack :=
+    let s := 4.0 * u * κ * (1.0 + 1.0 / ns.abs)
+    let e2 := if aea && e ≥ 1.0e-10 then 2.0 * e * e / (1.0 - e * e) else 0.0
+    if s.isNaN || s.isInf then ⟨0.0, aea, e2, b.a⟩ else ⟨s, aea, e2, b.a⟩
+  match b.name with
+  | .aea =>
+    let k := initAea b
+    let κ :=
+      if (b.lat1 - b.lat2).abs > 1.0e-10 then
+        let ms1 := msfnz k.e3 b.lat1.sin b.lat1.cos
+        let ms2 := msfnz k.e3 b.lat2.sin b.lat2.cos
+        rc (ms1 * ms1) (ms2 * ms2) + rc (qsfnz k.e3 b.lat2.sin) (qsfnz k.e3 b.lat1.sin)
+      else 1.0
+    mk κ k.ns0 true (if b.sphere then 0.0 else k.e3)
+  | .lcc =>
+    match initLcc b with
+    | .ok k =>
+      let s := k.sr
+      let κ :=
+        if (s.lat1 - s.lat2).abs > 1.0e-10 then
+          let ms1 := msfnz k.e s.lat1.sin s.lat1.cos
+          let ms2 := msfnz k.e s.lat2.sin s.lat2.cos
+          let ts1 := tsfnz k.e s.lat1 s.lat1.sin
+          let ts2 := tsfnz k.e s.lat2 s.lat2.sin
+          2.0 / (ms1 / ms2).log.abs + 2.0 / (ts1 / ts2).log.abs
+        else 1.0
+      mk κ k.ns false 0.0
+    | .error _ => noSlack
+  | .eqdc =>
+    match initEqdc b with
+    | .ok k =>
+      let s := k.sr
+      let κ :=
+        if (s.lat1 - s.lat2).abs ≥ 1.0e-10 then
+          rc (msfnz s.e s.lat1.sin s.lat1.cos) (msfnz s.e s.lat2.sin s.lat2.cos)
+            + rc (mlfn k.e0 k.e1 k.e2 k.e3 s.lat2) (mlfn k.e0 k.e1 k.e2 k.e3 s.lat1)
+        else 1.0
+      mk κ k.ns false 0.0
+    | .error _ => noSlack
+  | _ => noSlack
+
+/-- projected coordinates: base tolerance, or the cone slack in metres -/
+def closeM (sl : Slack) (impl model : Float) : Bool :=
+  closeM0 impl model || (impl - model).abs ≤ 4.0 * sl.cone * sl.a
+
+/-- latitude tolerance in radians at model latitude `phi` (radians) -/
+def latTolRad (sl : Slack) (phi : Float) : Float :=
+  let base : Float := 3.0e-12
+  if sl.aea then
+    let c := max 1.0e-6 phi.cos
+    let straddle := if sl.e2term > 0.0 then 1.5e-14 * (0.5 * phi.sin.abs / c + sl.e2term) else 0.0
+    max base (straddle + 14.0 * sl.cone / c)
+  else max base (8.0 * sl.cone)
+
+/-- longitude tolerance in radians of arc on the ground -/
+def lonTolRad (sl : Slack) : Float := max 3.0e-12 (4.0 * sl.cone)
 
 /-- scientific notation with 4 significant digits (core `toString` prints 6 decimals only) -/
 def sci (x : Float) : String :=
@@ -89,23 +177,26 @@ def sci (x : Float) : String :=
   let m := x / (10.0 : Float).pow e
   s!"{(m * 1000.0).round / 1000.0}e{e.toInt64}"
 
-/-- longitudes are compared exactly (NOT mod 360, except +180 against -180) on the ground: 3e-12 rad of arc, i.e. scaled by 1/cos(lat) -/
-def closePt (geographic : Bool) (impl model : Float × Float) : Bool :=
+/-- angles in degrees; longitudes are compared exactly (NOT mod 360, except +180 against -180) on the ground, i.e.
+scaled by cos(lat); base tolerance 3e-12 rad (1.72e-10 degrees), widened only by the derived `Slack` -/
+def closePt (sl : Slack) (geographic : Bool) (impl model : Float × Float) : Bool :=
   if geographic then
-    let c := max 0.01 ((model.2 * Spec.pi / 180.0).cos)
+    let r2d : Float := 57.29577951308232
+    let phi := model.2 * Spec.pi / 180.0
+    let c := max 0.01 phi.cos
     let anti := impl.1.abs ≥ 180.0 - 1.0e-9 && model.1.abs ≥ 180.0 - 1.0e-9   -- +180 vs -180
     let dl := if anti then Spec.lonDist impl.1 model.1 else (impl.1 - model.1).abs
-    dl * c ≤ 1.72e-10 && closeDeg impl.2 model.2
-  else closeM impl.1 model.1 && closeM impl.2 model.2
+    dl * c ≤ max 1.72e-10 (lonTolRad sl * r2d) && (impl.2 - model.2).abs ≤ max 1.72e-10 (latTolRad sl phi * r2d)
+  else closeM sl impl.1 model.1 && closeM sl impl.2 model.2
 
 def showRes : Except Err (Float × Float) → String
   | .ok (x, y) => s!"({x},{y})"
   | .error e => "err:" ++ e.tag
 
 /-- model vs implementation on one leg; `none` = agree -/
-def legDiff (geographic : Bool) (m : Except Err (Float × Float)) (impl : Float × Float) (implOk : Bool) : Option String :=
+def legDiff (sl : Slack) (geographic : Bool) (m : Except Err (Float × Float)) (impl : Float × Float) (implOk : Bool) : Option String :=
   match m, implOk with
-  | .ok v, true => if closePt geographic impl v then none else some s!"impl=({impl.1},{impl.2}) model=({v.1},{v.2}) delta=({sci (impl.1 - v.1)},{sci (impl.2 - v.2)})"
+  | .ok v, true => if closePt sl geographic impl v then none else some s!"impl=({impl.1},{impl.2}) model=({v.1},{v.2}) delta=({sci (impl.1 - v.1)},{sci (impl.2 - v.2)})"
   | .error _, false => none
   | .ok v, false => some s!"impl=err model=({v.1},{v.2})"
   | .error e, true => some s!"impl=({impl.1},{impl.2}) model=err:{e.tag}"
@@ -119,13 +210,14 @@ structure V where
 
 def judgeTrip (a b : SR Float) (nilAB nilBA : Bool) (t : Trip) (errs : String) : V :=
   let geoB := b.name == .longlat
+  let sl := coneSlack b
   let u := unitOf geoB b.toMeter b.a t.p.2
   -- correspondence: the Float model on the same inputs, leg by leg
   let m1 := if nilAB then .ok t.p else transformF a b t.p.1 t.p.2
   let m2 := if nilBA || !t.ok1 then .ok t.p2 else transformF b a t.q.1 t.q.2
   let m3 := if nilAB || !t.ok2 then .ok t.q2 else transformF a b t.p2.1 t.p2.2
   let diff : Option String :=
-    match legDiff geoB m1 t.q t.ok1, legDiff true m2 t.p2 (t.ok2 || !t.ok1), legDiff geoB m3 t.q2 (t.ok3 || !t.ok2) with
+    match legDiff sl geoB m1 t.q t.ok1, legDiff sl true m2 t.p2 (t.ok2 || !t.ok1), legDiff sl geoB m3 t.q2 (t.ok3 || !t.ok2) with
     | some w, _, _ => some ("leg1 " ++ w)
     | _, some w, _ => some ("leg2 " ++ w)
     | _, _, some w => some ("leg3 " ++ w)
@@ -158,18 +250,18 @@ def judgeTrip (a b : SR Float) (nilAB nilBA : Bool) (t : Trip) (errs : String) :
   ⟨spec, diff, (t.p.1 - t.p2.1).abs > 180.0⟩
 
 /-- one in-region occurrence on the reused closure pair: Spec verdict and correspondence -/
-def judgeClosureTrip (fwd inv : Tr Float) (geo : Bool) (after : Bool) (t : Trip) (errs : String) : V :=
+def judgeClosureTrip (sl : Slack) (fwd inv : Tr Float) (geo : Bool) (after : Bool) (t : Trip) (errs : String) : V :=
   let m1 := fwd t.p.1 t.p.2
   let m2 := if !t.ok1 then .ok t.p2 else inv t.q.1 t.q.2
   let m3 := if !t.ok2 then .ok t.q2 else fwd t.p2.1 t.p2.2
-  -- angles in radians: 3e-12 rad, longitude scaled by cos(lat)
+  -- angles in radians: 3e-12 rad (plus the derived slack of an ill-conditioned cone), longitude scaled by cos(lat)
   let closeRad (impl model : Float × Float) : Bool :=
     let c := max 0.01 model.2.cos
-    (impl.1 - model.1).abs * c ≤ 3.0e-12 && (impl.2 - model.2).abs ≤ 3.0e-12
+    (impl.1 - model.1).abs * c ≤ lonTolRad sl && (impl.2 - model.2).abs ≤ latTolRad sl model.2
   let leg (ang : Bool) (m : Except Err (Float × Float)) (impl : Float × Float) (ok : Bool) : Option String :=
     match m, ok with
     | .ok v, true =>
-      if (if ang then closeRad impl v else closeM impl.1 v.1 && closeM impl.2 v.2) then none
+      if (if ang then closeRad impl v else closeM sl impl.1 v.1 && closeM sl impl.2 v.2) then none
       else some s!"impl=({impl.1},{impl.2}) model=({v.1},{v.2}) delta=({sci (impl.1 - v.1)},{sci (impl.2 - v.2)})"
     | .error _, false => none
     | .ok v, false => some s!"impl=err model=({v.1},{v.2})"
@@ -210,7 +302,7 @@ def judgeClosures (n : String) (pts rhs : Tok) : String :=
           | .ok (fwd, inv) =>
             let k := ps.length
             let vs : List V := (ts.zip (List.range ts.length)).map fun (te, i) =>
-              judgeClosureTrip fwd inv (b.name == PName.longlat) (decide (i ≥ k)) te.1 te.2
+              judgeClosureTrip (coneSlack b) fwd inv (b.name == PName.longlat) (decide (i ≥ k)) te.1 te.2
             let specs : List String := vs.filterMap fun v => v.spec.map (·.1)
             let diffs : List String := (vs.filterMap fun v => v.diff) ++
               (if hist == "1" then ["history-dependent reused-closure-answer-differs-from-fresh-closure"] else [])
